@@ -274,6 +274,24 @@ var prefixSuffixMap map[byte]map[byte]int = map[byte]map[byte]int{
 }
 
 
+// Consumes a "(+)" or "(-)" USE default at the cursor; returns the default and the
+// character following it.
+func takeUseDefault(cur *parse.AtomCursor) (int, byte, error) {
+	var useDefault int
+	c := cur.Take()
+	switch c {
+	case '+':
+		useDefault = Use_default_enabled
+	case '-':
+		useDefault = Use_default_disabled
+	default:
+		return Use_default_none, c, fmt.Errorf("unknown USE-default character %c", c)
+	}
+	cur.Pos++
+	return useDefault, cur.Take(), nil
+}
+
+
 func parseUseDependencies(input []byte) ([]UseDependency, error) {
 	var deps []UseDependency
 	cur := parse.NewAtomCursor(input)
@@ -297,22 +315,25 @@ func parseUseDependencies(input []byte) ([]UseDependency, error) {
 			}
 		}
 		flag := string(cur.Slice[start:cur.Pos])
+		// The default follows the flag name directly: [flag(+)=]
+		if c == '(' && cur.Peek2() == ')' {
+			var err error
+			useDefault, c, err = takeUseDefault(cur)
+			if err != nil {
+				return nil, err
+			}
+		}
 		if c == '=' || c == '?' {
 			suffix = c
 			c = cur.Take()
 		}
-		if c == '(' && cur.Peek2() == ')' {
-			c = cur.Take()
-			switch c {
-			case '+':
-				useDefault = Use_default_enabled
-			case '-':
-				useDefault = Use_default_disabled
-			default:
-				return nil, fmt.Errorf("unknown USE-default character %c", c)
+		// Older spelling with the default after the suffix: [flag=(+)]
+		if useDefault == Use_default_none && c == '(' && cur.Peek2() == ')' {
+			var err error
+			useDefault, c, err = takeUseDefault(cur)
+			if err != nil {
+				return nil, err
 			}
-			cur.Pos++
-			c = cur.Take()
 		}
 		tp, ok := prefixSuffixMap[prefix][suffix]
 		if !ok {
